@@ -1,20 +1,732 @@
 /-
-  C01 extension 3 — further verbs: their reference (manual text) AND implementation model.
+  C01 extension 3 — verbs that had no reference yet: their reference (the manual text in the
+  docstrings of dyads.py / monads.py, transcribed; `none` wherever the manual defines nothing)
+  AND their implementation model (mirroring the Python control flow, lines cited).
+
+  Verbs: Amend `a:=b`, Amend-in-Depth `a:-b`, Index-in-Depth `a:@b`, Divide `a%b`, Reciprocal `%a`,
+  Power `a^b` (integer base, non-negative integer exponent), Char `:#a`, Undefined `:_a`,
+  Format `$a` and Form `a:$b` (integers, characters, strings, symbols).
+
+  Conventions (as in extension 1): a `Val` operand is the *literal*; literals that klongpy stores
+  differently (`Ext1.notStored`: mixed integer/real levels, object arrays of rank ≥ 2) are
+  `.unmodelled` wherever the code looks inside the array.  `.err` = the Python code raises,
+  `.ok v` = it returns (the canonical form of) `v`, `.unmodelled` = operand class not modelled.
+  Scalar real arithmetic is `Float` (opaque to the proofs, which are about structure).
 -/
 import Klong.Model.C01
+import Klong.Model.C01Ext1
+import Klong.Model.C01Ext2
 namespace Klong.C01.Ext3
 open Klong Klong.C01
 
+def lift (o : Option Val) : Res := match o with | some v => .ok v | none => .err
+
+def isListV : Val → Bool
+  | .list _ => true
+  | _ => false
+
+/- `[]` occurs somewhere in the operand.  `[]` is an atom AND the empty list: what an atomic verb
+    that converts between kinds (Char, Format, Form) yields for it is not defined by the manual -/
+mutual
+def hasEmptyList : Val → Bool
+  | .list [] => true
+  | .list (x :: xs) => hasEmptyList x || hasEmptyListL xs
+  | _ => false
+def hasEmptyListL : List Val → Bool
+  | [] => false
+  | x :: xs => hasEmptyList x || hasEmptyListL xs
+end
+
+def isText : Val → Bool
+  | .chr _ => true
+  | .str _ => true
+  | .sym _ => true
+  | _ => false
+
+/-! ## Amend — reference
+
+    "a" must be a list or string and "b" must be a list where the first element can have any type
+    and the remaining elements must be integers. It returns a new object of a's type where a@b2
+    through a@bN are replaced by b1. When "a" is a string, b1 must be a character or a string.
+    When both "a" and b1 are strings, Amend replaces each substring of "a" starting at b2..bN by
+    b1. No index b2..bN must be larger than #a. When b1 is replaced at a position past (#a)-#b1,
+    the amended string will grow by the required amount.
+
+  Decisions: positions a@i exist for 0 ≤ i < #a only (anything else: undefined); for a string b1
+  the indices may reach #a (of the original string); substrings that overlap (two indices closer
+  than #b1, a repeated index included) have no defined order of replacement: undefined. -/
+
+/-- replace the elements at the given positions by `v` -/
+def setAll {α} (xs : List α) (v : α) : List Nat → List α
+  | [] => xs
+  | i :: is => setAll (xs.set i v) v is
+
+/-- replace the substring of `cs` starting at `i` by `s`, growing past the end if needed -/
+def splice (cs s : List Nat) (i : Nat) : List Nat := cs.take i ++ s ++ cs.drop (i + s.length)
+
+def spliceAll (cs s : List Nat) : List Nat → List Nat
+  | [] => cs
+  | i :: is => spliceAll (splice cs s i) s is
+
+/-- the substrings of length `m` starting at the indices are pairwise disjoint -/
+def apart (m : Nat) : List Nat → Bool
+  | [] => true
+  | i :: is => is.all (fun j => decide (i + m ≤ j) || decide (j + m ≤ i)) && apart m is
+
+def refAmend : Val → Val → Option Val
+  | .list xs, .list (v :: ixs) =>
+    match natList ixs with
+    | some is => if is.all (fun i => decide (i < xs.length)) then some (.list (setAll xs v is)) else none
+    | none => none
+  | .str cs, .list (.chr c :: ixs) =>
+    match natList ixs with
+    | some is => if is.all (fun i => decide (i < cs.length)) then some (.str (setAll cs c is)) else none
+    | none => none
+  | .str cs, .list (.str s :: ixs) =>
+    match natList ixs with
+    | some is =>
+      if is.all (fun i => decide (i ≤ cs.length)) && apart s.length is then some (.str (spliceAll cs s is))
+      else none
+    | none => none
+  | _, _ => none
+
+/-! ## Amend — implementation  (dyads.py eval_dyad_amend, 50–78)
+
+    if not (isinstance(a, (str,list)) or isarray(a)): raise RuntimeError
+    if len(b) <= 1: return a
+    if isinstance(a, str):
+        r = str_to_chr_arr(a); q = str_to_chr_arr(b[0])
+        for i in b[1:]:
+            try: r[i:i+len(q)] = q
+            except ValueError:
+                r = r.astype(object)
+                if i > len(r): RangeError(i)            # constructed, never raised
+                elif i == len(r): r = numpy.append(r, b[0])
+                else: r[i] = b[0]
+        return "".join(["".join(x) for x in r])
+    r = np.array(a)
+    if is_list(b[0]):
+        r = r.tolist()
+        for i in b[1:]: r[i] = b[0]
+        r = kg_asarray(r)
+    else:
+        numpy.put(r, numpy.asarray(b[1:], dtype=int), b[0])
+    return r                                                                                  -/
+
+/-- `xs[i] = v` for a Python / numpy integer index (negative counts from the end; none = IndexError) -/
+def pySet {α} (xs : List α) (i : Int) (v : α) : Option (List α) :=
+  let j := if i < 0 then i + (xs.length : Int) else i
+  if j < 0 ∨ j ≥ (xs.length : Int) then none else some (xs.set j.toNat v)
+
+def pySetAll {α} (xs : List α) (v : α) : List Int → Option (List α)
+  | [] => some xs
+  | i :: is =>
+    match pySet xs i v with
+    | some r => pySetAll r v is
+    | none => none
+
+/-- 60–68 for one index `i ≥ 0`.  `r` is the character array; a slot holds one character or,
+    after line 66/68, a whole string.  numpy slice assignment `r[i:i+m] = q`: the slice has
+    `L = min(i+m, n) - min(i, n)` slots; it succeeds when `L = m`, broadcasts when `m = 1` (here
+    only into `L = 0` slots: nothing happens), raises ValueError otherwise. -/
+def amendStep (q : List Nat) (r : List (List Nat)) (i : Nat) : List (List Nat) :=
+  let n := r.length
+  let m := q.length
+  let lo := min i n
+  let hi := min (i + m) n
+  if hi - lo == m then r.take lo ++ q.map (fun c => [c]) ++ r.drop hi       -- 60
+  else if m == 1 then r                                                      -- 60: broadcast into 0 slots
+  else if i > n then r                                                       -- 63–64
+  else if i == n then r ++ [q]                                               -- 65–66
+  else r.set i q                                                             -- 67–68
+
+def implAmendStr (cs q : List Nat) (is : List Int) : Res :=
+  if is.any (fun i => decide (i < 0)) then .unmodelled                       -- negative slice bounds
+  else .ok (.str ((is.foldl (fun r i => amendStep q r i.toNat) (cs.map fun c => [c])).flatten))   -- 69
+
+def implAmendList (a : Val) (xs : List Val) (v : Val) (is : List Int) : Res :=
+  match v with
+  | .list _ =>                                                               -- 71–75
+    match pySetAll xs v is with
+    | none => .err
+    | some r => .ok (Ext1.npCoerce (.list r))
+  | .dict _ => .unmodelled
+  | .undef => .unmodelled
+  | _ =>                                                                     -- 77 numpy.put
+    if xs.isEmpty then .err                                                  -- cannot replace elements of an empty array
+    else
+      match numShape a with
+      | none => lift ((pySetAll xs v is).map .list)                          -- rank-1 object array
+      | some s =>
+        if isText v then .err                                                -- int("x") / float("x"): ValueError
+        else
+          let intArr := !Ext1.hasReal a
+          match v, intArr with
+          | .real _, true => .unmodelled                                     -- the real is truncated by the cast
+          | _, _ =>
+            let v' := if intArr then v else Ext1.toReal v
+            if s.length == 1 then lift ((pySetAll xs v' is).map .list)
+            else                                                             -- put indexes the FLATTENED array
+              match pySetAll (flattenAll a) v' is with
+              | none => .err
+              | some flat => .ok (Ext2.npReshape s flat)
+
+def implAmend (a b : Val) : Res :=
+  match a, b with
+  | .list xs, .list bs =>
+    if Ext1.notStored a || Ext1.notStored b then .unmodelled else
+    match bs with
+    | [] => .ok a                                                            -- 53–54
+    | [_] => .ok a
+    | v :: ixs =>
+      match Ext1.intList ixs with
+      | none => .unmodelled
+      | some is => implAmendList a xs v is
+  | .str cs, .list bs =>
+    if Ext1.notStored b then .unmodelled else
+    match bs with
+    | [] => .ok a
+    | [_] => .ok a
+    | v :: ixs =>
+      match Ext1.intList ixs with
+      | none => .unmodelled
+      | some is =>
+        match v with
+        | .chr c => implAmendStr cs [c] is
+        | .str s => implAmendStr cs s is
+        | _ => .unmodelled
+  | _, _ => .unmodelled
+
+/-! ## Amend-in-Depth and Index-in-Depth — reference
+
+    :- is like :=, but "a" may be a multi-dimensional array. The :- operator replaces one single
+    element in that array. The sequence of indices b1..bN is used to locate the target element in
+    an N-dimensional array. The number of indices must match the rank of the array.
+    :@ is like "@" but, when applied to an array, extracts a single element from a
+    multi-dimensional array. The indices in "b" are used to locate the element. The number of
+    indices must match the rank of the array.
+
+  Decision: "an N-dimensional array" is a regular nest of lists, N levels deep, whose innermost
+  members are not lists (strings and empty lists as members: undefined, the manual's Shape counts
+  them as a further dimension / as atoms).  Ragged lists have no rank: undefined. -/
+
+/-- shape of a regular N-dimensional array -/
+def regShape : Val → Option (List Nat)
+  | .list [] => none
+  | .list (x :: xs) =>
+    match regShape x with
+    | none => none
+    | some s => if (regShapes xs).all (fun t => t == some s) then some ((xs.length + 1) :: s) else none
+  | .str _ => none
+  | .dict _ => none
+  | _ => some []
+where
+  regShapes : List Val → List (Option (List Nat))
+    | [] => []
+    | y :: ys => regShape y :: regShapes ys
+
+def deepGet : Val → List Nat → Option Val
+  | v, [] => some v
+  | .list xs, i :: r =>
+    match xs[i]? with
+    | some x => deepGet x r
+    | none => none
+  | _, _ :: _ => none
+
+def deepSet : Val → List Nat → Val → Option Val
+  | _, [], _ => none
+  | .list xs, [i], v => if i < xs.length then some (.list (xs.set i v)) else none
+  | .list xs, i :: j :: r, v =>
+    match xs[i]? with
+    | some x => (deepSet x (j :: r) v).map fun y => .list (xs.set i y)
+    | none => none
+  | _, _ :: _, _ => none
+
+def refAmendDepth : Val → Val → Option Val
+  | .list xs, .list (v :: ixs) =>
+    match regShape (.list xs), natList ixs with
+    | some s, some is => if is.length == s.length then deepSet (.list xs) is v else none
+    | _, _ => none
+  | _, _ => none
+
+def refIndexDepth : Val → Val → Option Val
+  | .list xs, .list ixs =>
+    match regShape (.list xs), natList ixs with
+    | some s, some is => if is.length == s.length then deepGet (.list xs) is else none
+    | _, _ => none
+  | _, _ => none
+
+/-! ## Amend-in-Depth — implementation  (dyads.py 81–107)
+
+    def _e_dyad_amend_in_depth(p, q, v):
+        if isarray(q) and len(q) > 1:
+            r = _e(p[q[0]], q[1:] if len(q) > 2 else q[1], v)
+            p = array(p, dtype=r.dtype); p[q[0]] = r; return p
+        else:
+            p = array(p, dtype=object) if isinstance(v, (str, KGSym)) else array(p)
+            p[q] = v; return p
+    eval_dyad_amend_in_depth(a, b) = _e(a, b[1:], b[0])
+
+  Modelled: `a` a regular nest of numbers (one N-d array; sub-arrays are N-d arrays again, so
+  `array(p, dtype=r.dtype)` succeeds), or any stored list with exactly one index; the value an
+  integer or a character / string / symbol (a real value makes `b` one float array whose "indices"
+  are floats: IndexError — `b` is then `notStored`). -/
+
+/-- the recursion for `len(q) ≥ 2` down to the scalar last index -/
+def aidWalk : Val → List Int → Val → Res
+  | _, [], _ => .unmodelled
+  | .list xs, [i], v =>                                       -- p[q] = v, q a scalar
+    if xs.all (fun x => !isListV x) then lift ((pySet xs i v).map .list)
+    else .unmodelled                                          -- p has rank ≥ 2: v is broadcast over a row
+  | .list xs, i :: j :: r, v =>
+    match Ext1.pyIndex xs i with                              -- p[q[0]]
+    | none => .err
+    | some sub =>
+      match aidWalk sub (j :: r) v with
+      | .ok y => lift ((pySet xs i y).map .list)              -- p[q[0]] = r
+      | e => e
+  | _, _ :: _, _ => .err                                      -- a 0-d array: too many indices
+
+/-- the value as the array will hold it (an integer stored into a float64 array becomes a real);
+    `none` = a value kind that is not modelled -/
+def aidValue (a v : Val) : Option Val :=
+  match v with
+  | .int _ => if (numShape a).isSome && Ext1.hasReal a then some (Ext1.toReal v) else some v
+  | .chr _ => some v
+  | .str _ => some v
+  | .sym _ => some v
+  | _ => none
+
+def implAmendDepth (a b : Val) : Res :=
+  if Ext1.notStored a || Ext1.notStored b then .unmodelled else
+  match a, b with
+  | .list xs, .list (v :: ixs) =>
+    match Ext1.intList ixs with
+    | none => .unmodelled
+    | some is =>
+      match aidValue a v with
+      | none =>
+        -- a list value: `b` is an object array; with one index `b[1:]` is no index array (IndexError),
+        -- with more the numeric target slot refuses a sequence (ValueError) or an index is out of range
+        -- (fewer indices than dimensions: the list is broadcast over a row — not modelled)
+        match v, numShape a with
+        | .list _, some s => if is.length == 1 || (is.length ≥ 2 && is.length ≥ s.length) then .err else .unmodelled
+        | _, _ => .unmodelled
+      | some v' =>
+        match is with
+        | [] => if isText v then .unmodelled else .ok a       -- p[empty index array] = v
+        | [i] =>                                              -- q = b[1:], an ARRAY holding one index
+          if isText v then .err                               -- b is an object array: not an index array
+          else if (numShape a).isSome && xs.any isListV then .unmodelled   -- rank ≥ 2: v is broadcast over row i
+          else lift ((pySet xs i v').map .list)               -- rank 1 (numeric or object array)
+        | _ => if (numShape a).isSome then aidWalk a is v' else .unmodelled
+  | _, _ => .unmodelled
+
+/-! ## Index-in-Depth — implementation  (dyads.py 476)
+
+    return asarray(a)[tuple(b) if is_list(b) else b] if not is_empty(b) else b                -/
+
+/-- a multi-index into a regular nest of numbers (fewer indices than dimensions: a sub-array;
+    more: IndexError) -/
+def walkGet : Val → List Int → Option Val
+  | v, [] => some v
+  | .list xs, i :: r =>
+    match Ext1.pyIndex xs i with
+    | some x => walkGet x r
+    | none => none
+  | _, _ :: _ => none
+
+def implIndexDepthList (a : Val) (xs : List Val) (is : List Int) : Res :=
+  if Ext1.notStored a then .unmodelled
+  else if (numShape a).isSome then lift (walkGet a is)
+  else                                                        -- a rank-1 object array
+    match is with
+    | [i] => lift (Ext1.pyIndex xs i)
+    | _ => .err                                               -- too many indices for array
+
+def implIndexDepth (a b : Val) : Res :=
+  match b with
+  | .list [] => .ok b
+  | .str [] => .ok b
+  | .list ixs =>
+    match a, Ext1.intList ixs with
+    | .list xs, some is => implIndexDepthList a xs is
+    | _, _ => .unmodelled
+  | .int i =>
+    match a with
+    | .list xs => implIndexDepthList a xs [i]
+    | _ => .unmodelled
+  | _ => .unmodelled
+
+/-! ## Divide, Reciprocal — reference and implementation
+
+    a%b: Return the quotient of "a" and "b". The result is always a real number, even if the
+    result has a fractional part of 0. "%" is an atomic operator.     %a: Return 1%a.
+    (Undefined, `:_1%0 --> 1`: division by zero is undefined.)
+
+  Decision: the quotient by zero of two ATOMS is :undefined (the manual's example); a zero divisor
+  inside a list operand is left undefined by the reference (klongpy returns inf there).
+
+    dyads.py 228–232:  if not is_list(a) and not is_list(b) and is_number(b): if b == 0: return UNDEFINED
+                       return np.divide(a, b)
+    monads.py 317–321: if not is_list(a) and is_number(a): if a == 0: return UNDEFINED
+                       return vec_fn(a, lambda x: np.reciprocal(np.asarray(x, dtype=float)))  -/
+
+/-- the paired traversal meets two arrays whose numpy shapes differ (an object array against a
+    regular or another object array): numpy broadcasts / raises instead of pairing elements
+    (known finding atomic:numpy-shape-mismatch; `Ext1.npShape` = `np_shape` of vlib/c01.py) -/
+def npMismatch (a b : Val) : Bool :=
+  let sa := Ext1.npShape a
+  let sb := Ext1.npShape b
+  sa != sb && sa != [] && sb != []
+
+def anyNpMismatch : Val → Val → Bool
+  | .list xs, .list ys => npMismatch (.list xs) (.list ys) || goZip xs ys
+  | _, _ => false
+where
+  goZip : List Val → List Val → Bool
+    | x :: xs, y :: ys => anyNpMismatch x y || goZip xs ys
+    | _, _ => false
+
+/-- operand pairs on which a ufunc / vec_fn2 does not pair the elements as the literal suggests -/
+def ufuncSkip (a b : Val) : Bool :=
+  anyRankMismatch a b || anyNpMismatch a b || Ext1.hasObjRank2 a || Ext1.hasObjRank2 b
+
+def isZeroNum : Val → Bool
+  | .int n => n == 0
+  | .real b => Float.ofBits b == 0
+  | _ => false
+
+/-- float64 quotient of two numbers (integers are converted first, as numpy's true_divide does) -/
+def scalarDiv (a b : Val) : Option Val :=
+  match toF a, toF b with
+  | some x, some y => if isZeroNum b then none else some (ofF (x / y))
+  | _, _ => none
+
+/- every leaf of the operand is a number ("a" and "b" must be numbers); `[]` has no leaves -/
+mutual
+def numLeaves : Val → Bool
+  | .int _ => true
+  | .real _ => true
+  | .list xs => numLeavesL xs
+  | _ => false
+def numLeavesL : List Val → Bool
+  | [] => true
+  | x :: xs => numLeaves x && numLeavesL xs
+end
+
+def refDivide (a b : Val) : Option Val :=
+  if !(numLeaves a && numLeaves b) then none
+  else if a.isNum && b.isNum && isZeroNum b then some .undef else refA2 scalarDiv a b
+
+def implDivide (a b : Val) : Res :=
+  if !isListV a && !isListV b && b.isNum && isZeroNum b then .ok .undef      -- 228–231
+  else if ufuncSkip a b then .unmodelled                                      -- numpy broadcasting
+  else match implA2 scalarDiv a b with                                        -- 232: one ufunc call
+    | some v => .ok v
+    | none => .unmodelled                                                     -- zero divisors in arrays (inf), text
+
+def refRecip (a : Val) : Option Val := refDivide (.int 1) a
+
+/-- `np.reciprocal(np.asarray(x, dtype=float))` on one number: 1.0 / x -/
+def recipAtom (x : Val) : Option Val := scalarDiv (.int 1) x
+
+def implRecip (a : Val) : Res :=
+  if !isListV a && a.isNum && isZeroNum a then .ok .undef                     -- 317–320
+  else if Ext1.hasObjRank2 a then .unmodelled
+  else match refA1 recipAtom a with                                           -- vec_fn: element-wise
+    | some v => .ok v
+    | none => .unmodelled
+
+/-! ## Power — reference and implementation
+
+    Compute "a" to the power of "b" and return the result. Both "a" and "b" must be numbers.
+    Dyadic "^" is an atomic operator.  2^0 --> 1, 2^8 --> 256.
+
+  Decision (DESIGN C01): integer base and non-negative integer exponent ⇒ the integer a^b; here
+  only while |a^b| ≤ 2^53 (beyond, the integer is not representable in the interpreter's float64
+  arithmetic; the manual does not say what happens).  Negative exponents / real operands: not in
+  this extension.
+
+    dyads.py 743–762 / numpy_backend.power: r = np.power(float(a), b);
+       if trunc(r) == r for ALL elements: return to_int_array(r) else r
+    applied through vec_fn2 (object arrays element-wise, numeric arrays in one call).         -/
+
+def powBound : Nat := 9007199254740992
+
+def scalarPow : Val → Val → Option Val
+  | .int a, .int b =>
+    if b < 0 then none
+    else if (a ^ b.toNat).natAbs ≤ powBound then some (.int (a ^ b.toNat)) else none
+  | _, _ => none
+
+def refPower (a b : Val) : Option Val :=
+  if !(numLeaves a && numLeaves b) then none else refA2 scalarPow a b
+
+def implPower (a b : Val) : Res :=
+  if ufuncSkip a b then .unmodelled
+  else match implA2 scalarPow a b with
+    | some v => .ok v
+    | none => .unmodelled
+
+/-! ## Char
+
+    Return the character at the code point "a". Monadic :# is an atomic operator.
+
+    monads.py 34: rec_fn(a, lambda x: KGChar(chr(x))) if is_list(a) else KGChar(chr(a))
+    base.py 503 rec_fn: kg_asarray([rec_fn(x, f) for x in a]) if _is_list(a) else f(a);
+    `_is_list` is false for an EMPTY array, so `chr(array([]))` is called on it: TypeError.   -/
+
+def chrAtom : Val → Option Val
+  | .int n => if 0 ≤ n ∧ n < 1114112 then some (.chr n.toNat) else none
+  | _ => none
+
+def refChar (a : Val) : Option Val := if hasEmptyList a then none else refA1 chrAtom a
+
+mutual
+def implCharRec : Val → Option Val
+  | .list [] => none                                          -- f(empty array): TypeError
+  | .list (x :: xs) => (implCharL (x :: xs)).map .list
+  | a => chrAtom a                                            -- chr(): ValueError / TypeError = none
+def implCharL : List Val → Option (List Val)
+  | [] => some []
+  | x :: xs =>
+    match implCharRec x, implCharL xs with
+    | some r, some rs => some (r :: rs)
+    | _, _ => none
+end
+
+def implChar (a : Val) : Res := lift (implCharRec a)
+
+/-! ## Undefined
+
+    Return truth, if "a" is undefined. Else return 0.
+    monads.py 476: kg_truth(a is None or a is KLONG_UNDEFINED)                                -/
+
+def refUndefined : Val → Option Val
+  | .undef => some (.int 1)
+  | _ => some (.int 0)
+
+def implUndefined : Val → Res
+  | .undef => .ok (.int 1)
+  | _ => .ok (.int 0)
+
+/-! ## Format
+
+    Write the external representation of "a" to a string and return it. "$" is an atomic
+    operator.  $123 --> "123", $"test" --> "test", $0cx --> "x", $:foo --> ":foo".
+
+    monads.py 144: f":{a}" if isinstance(a, KGSym)
+                   else vec_fn(a, lambda x: eval_monad_format(x)) if is_list(a) else str(a)
+    base.py 476 vec_fn: object arrays member by member (`vec_fn(x, f) if _is_list(x) else f(x)`),
+    anything else `f(a)` — for a NUMERIC array that is eval_monad_format(a) again: RecursionError. -/
+
+/-- Python `str(n)` -/
+def intStr (n : Int) : List Nat :=
+  if n < 0 then 45 :: Ext2.natDigits (n.natAbs + 1) n.natAbs else Ext2.natDigits (n.natAbs + 1) n.natAbs
+
+def fmtAtom : Val → Option Val
+  | .int n => some (.str (intStr n))
+  | .chr c => some (.str [c])
+  | .str s => some (.str s)
+  | .sym s => some (.str (58 :: s))
+  | _ => none                                                 -- reals: not in this extension
+
+def refFormat (a : Val) : Option Val := if hasEmptyList a then none else refA1 fmtAtom a
+
+mutual
+def implFormatRec : Val → Res
+  | .list xs =>
+    if (numShape (.list xs)).isSome then .err                 -- numeric array (also []): RecursionError
+    else match implFormatL xs with
+      | .ok (.list rs) => .ok (.list rs)
+      | .ok _ => .unmodelled
+      | e => e
+  | a => match fmtAtom a with
+    | some v => .ok v
+    | none => .unmodelled                                     -- reals, dictionaries, :undefined
+/-- the list comprehension; the result packed as `.list` -/
+def implFormatL : List Val → Res
+  | [] => .ok (.list [])
+  | x :: xs =>
+    match implFormatRec x, implFormatL xs with
+    | .ok r, .ok (.list rs) => .ok (.list (r :: rs))
+    | .err, _ => .err
+    | .unmodelled, _ => .unmodelled
+    | _, e => e
+end
+
+def implFormat (a : Val) : Res :=
+  if Ext1.notStored a then .unmodelled else implFormatRec a
+
+/-! ## Form
+
+    Convert string "b" to the type of the object of "a". When "b" can be converted to the desired
+    type, an object of that type will be returned. When such a conversion is not possible, :$ will
+    return :undefined. When "a" is an integer, "b" may not represent a real number. When "a" is a
+    character, "b" must contain exactly one character. When "a" is a symbol, "b" must contain the
+    name of a valid symbol (optionally including a leading ":" character). :$ is an atomic operator.
+
+  Decisions: an integer is written `-?[0-9]+`; `-?[0-9]+.[0-9]+` "represents a real number" and an
+  ASCII text without any digit cannot be converted (both: :undefined); other texts (" 12", "+5",
+  "0x10", "1e5", …): undefined by the reference.  A valid symbol name is a letter or "." followed
+  by letters, digits and "."; other non-empty names: undefined by the reference.  Real `a`: not in
+  this extension.
+
+    dyads.py 346–364 __e_dyad_form, 366–372 _e_dyad_form, 401 vec_fn2(a, b, _e_dyad_form)     -/
+
+def isDigit (c : Nat) : Bool := decide (48 ≤ c) && decide (c ≤ 57)
+
+def isLetter (c : Nat) : Bool := (decide (65 ≤ c) && decide (c ≤ 90)) || (decide (97 ≤ c) && decide (c ≤ 122))
+
+def digitsVal : List Nat → Nat → Nat
+  | [], acc => acc
+  | c :: cs, acc => digitsVal cs (acc * 10 + (c - 48))
+
+def parseNat (s : List Nat) : Option Nat :=
+  if !s.isEmpty && s.all isDigit then some (digitsVal s 0) else none
+
+def parseInt : List Nat → Option Int
+  | 45 :: r => (parseNat r).map fun n => -(n : Int)
+  | s => (parseNat s).map fun n => (n : Int)
+
+/-- `-?[0-9]+.[0-9]+` -/
+def isRealLit (s : List Nat) : Bool :=
+  let body := match s with | 45 :: r => r | _ => s
+  let ip := body.takeWhile isDigit
+  match body.dropWhile isDigit with
+  | 46 :: fp => !ip.isEmpty && !fp.isEmpty && fp.all isDigit
+  | _ => false
+
+/-- an ASCII text without a digit: no notation of a number -/
+def noDigitAscii (s : List Nat) : Bool := s.all fun c => decide (c < 128) && !isDigit c
+
+def validSym : List Nat → Bool
+  | [] => false
+  | c :: cs => (isLetter c || c == 46) && cs.all fun d => isLetter d || isDigit d || d == 46
+
+def stripColon : List Nat → List Nat
+  | 58 :: r => r
+  | s => s
+
+def formAtom : Val → Val → Option Val
+  | .int _, .str s =>
+    match parseInt s with
+    | some n => some (.int n)
+    | none => if isRealLit s || noDigitAscii s then some .undef else none
+  | .chr _, .str s =>
+    match s with
+    | [c] => some (.chr c)
+    | _ => some .undef
+  | .str _, .str s => some (.str s)
+  | .sym _, .str s =>
+    if s.isEmpty then some .undef
+    else if validSym (stripColon s) then some (.sym (stripColon s)) else none
+  | _, _ => none
+
+def refForm (a b : Val) : Option Val :=
+  if hasEmptyList a || hasEmptyList b then none else refA2 formAtom a b
+
+/-- `__e_dyad_form` on an atom `a` and a string `b` -/
+def formAtomImpl : Val → Val → Res
+  | .sym _, .str s =>                                         -- 347–350
+    if s.isEmpty then .ok .undef else .ok (.sym (stripColon s))
+  | .int _, .str s =>                                         -- 351–354
+    if s.isEmpty then .ok .undef
+    else if s.contains 46 then
+      if isRealLit s then .ok .undef                          -- '.' in b and str_is_float(b)
+      else if noDigitAscii s then .err                        -- float(b) fails, then int(b): ValueError
+      else .unmodelled                                        -- Python's float() grammar
+    else
+      match parseInt s with
+      | some n => .ok (.int n)                                -- int(b)
+      | none => if noDigitAscii s then .err                   -- int(b): ValueError
+                else .unmodelled                              -- Python's int() grammar (blanks, "+", "_")
+  | .chr _, .str s =>                                         -- 359–363
+    match s with
+    | [c] => .ok (.chr c)
+    | _ => .ok .undef
+  | .str _, .str s => .ok (.str s)                            -- 364: return b
+  | _, _ => .unmodelled
+
+/-- `vec_fn2(a, b, _e_dyad_form)`: object arrays are paired / extended element-wise; a NUMERIC
+    array against a string reaches `__e_dyad_form(array, b)`, which returns `b` (364) -/
+def formRec : Nat → Val → Val → Res
+  | 0, _, _ => .unmodelled
+  | fuel + 1, a, b =>
+    let collect (rs : List Res) : Res :=
+      rs.foldr (fun r acc => match r, acc with
+        | .ok v, .ok (.list vs) => .ok (.list (v :: vs))
+        | .err, _ => .err
+        | .unmodelled, _ => .unmodelled
+        | _, e => e) (.ok (.list []))
+    match a, b with
+    | .list xs, .list ys =>
+      if (numShape a).isSome && (numShape b).isSome then .unmodelled
+      else if xs.length != ys.length then .err                -- assert len(a) == len(b)
+      else collect ((xs.zip ys).map fun p => formRec fuel p.1 p.2)
+    | .list xs, .str _ =>
+      if (numShape a).isSome then .ok b                       -- f(a, b) → __e_dyad_form(array, b): return b
+      else collect (xs.map fun x => formRec fuel x b)
+    | .list _, _ => .unmodelled
+    | _, .list ys =>
+      if (numShape b).isSome then .unmodelled
+      else collect (ys.map fun y => formRec fuel a y)
+    | a, b => formAtomImpl a b
+
+mutual
+def depthV : Val → Nat
+  | .list xs => depthL xs + 1
+  | _ => 0
+def depthL : List Val → Nat
+  | [] => 0
+  | x :: xs => max (depthV x) (depthL xs)
+end
+
+def implForm (a b : Val) : Res :=
+  if Ext1.notStored a || Ext1.notStored b then .unmodelled
+  else formRec (depthV a + depthV b + 1) a b
+
+/-! ## dispatch -/
+
 /-- reference for the dyads of this extension (`none` = not ours / undefined) -/
-def refDyad (_verb : String) (_a _b : Val) : Option Val := none
+def refDyad (verb : String) (a b : Val) : Option Val :=
+  match verb with
+  | ":=" => refAmend a b
+  | ":-" => refAmendDepth a b
+  | ":@" => refIndexDepth a b
+  | "%" => refDivide a b
+  | "^" => refPower a b
+  | ":$" => refForm a b
+  | _ => none
 
 /-- reference for the monads of this extension -/
-def refMonad (_verb : String) (_a : Val) : Option Val := none
+def refMonad (verb : String) (a : Val) : Option Val :=
+  match verb with
+  | "%" => refRecip a
+  | ":#" => refChar a
+  | ":_" => refUndefined a
+  | "$" => refFormat a
+  | _ => none
 
 /-- implementation model for the dyads of this extension (`.unmodelled` = not ours) -/
-def implDyad (_verb : String) (_a _b : Val) : Res := .unmodelled
+def implDyad (verb : String) (a b : Val) : Res :=
+  match verb with
+  | ":=" => implAmend a b
+  | ":-" => implAmendDepth a b
+  | ":@" => implIndexDepth a b
+  | "%" => implDivide a b
+  | "^" => implPower a b
+  | ":$" => implForm a b
+  | _ => .unmodelled
 
 /-- implementation model for the monads of this extension -/
-def implMonad (_verb : String) (_a : Val) : Res := .unmodelled
+def implMonad (verb : String) (a : Val) : Res :=
+  match verb with
+  | "%" => implRecip a
+  | ":#" => implChar a
+  | ":_" => implUndefined a
+  | "$" => implFormat a
+  | _ => .unmodelled
 
 end Klong.C01.Ext3
